@@ -29,10 +29,31 @@ Definition land_list (x m : list N) : list N := map (fun xm => N.land (fst xm) (
 
 Definition agree_under (m x y : list N) : bool := bytes_eqb (land_list x m) (land_list y m).
 
-(** an IPv4 network may carry its mask as 4 bytes or as the last 4 of 16 *)
+(** a mask as 16 bytes: the mask of an IPv4 network written with 4 bytes says nothing about the
+    ::ffff:0:0/96 prefix, which every IPv4 address has *)
+Definition mask16 (m : list N) : list N :=
+  if Nat.eqb (length m) 4 then ([255;255;255;255;255;255;255;255;255;255;255;255]%N ++ m)%list else m.
+
+(** a single address covers itself; a range covers the addresses of its family (IPv4 / IPv6 proper) that
+    agree with the network number under the mask; what does not parse covers / is covered by nothing *)
+Definition spec_covers (e : entry) (p : ip) : bool :=
+  match e, canon16 p with
+  | EIp a, Some pb =>
+    match canon16 a with Some ab => bytes_eqb ab pb | None => false end
+  | ECidr a m, Some pb =>
+    match canon16 a with
+    | Some ab => Bool.eqb (is_v4 ab) (is_v4 pb) && agree_under (mask16 m) ab pb
+    | None => false
+    end
+  | _, _ => false
+  end.
+
+(** the same, shaped like net.IPNet.Contains (an IPv4 network is compared on 4 bytes, its mask being 4
+    bytes or the last 4 of 16): equal to [spec_covers] on what the net package returns
+    ([spec_covers_go_shape]); used for the proof of [trust_is_membership] only *)
 Definition mask4 (m : list N) : list N := if Nat.eqb (length m) 16 then skipn 12 m else m.
 
-Definition spec_covers (e : entry) (p : ip) : bool :=
+Definition covers_go_shape (e : entry) (p : ip) : bool :=
   match e, canon16 p with
   | EIp a, Some pb =>
     match canon16 a with Some ab => bytes_eqb ab pb | None => false end
@@ -212,12 +233,12 @@ Lemma agree_under_16_v4 m a p :
   agree_under (skipn 12 m) (skipn 12 a) (skipn 12 p) = agree_under (skipn 12 m) (skipn 12 a) (skipn 12 p).
 Proof. reflexivity. Qed.
 
-(** a CIDR entry *)
-Lemma cidr_entry_membership a m p :
+(** a CIDR entry: IPNet.Contains is the Go-shaped predicate ... *)
+Lemma cidr_entry_go_shape a m p :
   wf_entry (ECidr a m) -> wf_ip p ->
-  net_contains a m p = spec_covers (ECidr a m) p.
+  net_contains a m p = covers_go_shape (ECidr a m) p.
 Proof.
-  intros Hw Hp. unfold net_contains, network_number_and_mask, spec_covers, canon16, mask4.
+  intros Hw Hp. unfold net_contains, network_number_and_mask, covers_go_shape, canon16, mask4.
   destruct Hw as [[Ha Hm]|[Ha Hm]].
   - (* IPv4 network, 4-byte mask *)
     rewrite (to4_len4 a Ha).
@@ -250,6 +271,63 @@ Proof.
         -- reflexivity.
         -- apply masked_eqb_agree; lia.
 Qed.
+
+(** ... which is the declarative one *)
+Lemma land_list_app x1 x2 m1 m2 :
+  length x1 = length m1 -> land_list (x1 ++ x2) (m1 ++ m2) = (land_list x1 m1 ++ land_list x2 m2)%list.
+Proof.
+  unfold land_list. revert m1. induction x1 as [|x x1 IH]; intros [|mb m1] H; simpl in *; try discriminate; [reflexivity|].
+  f_equal. apply IH. lia.
+Qed.
+
+Lemma land_list_length x m : length x = length m -> length (land_list x m) = length m.
+Proof. intro H. unfold land_list. rewrite map_length, combine_length. lia. Qed.
+
+Lemma agree_under_app m1 m2 x1 x2 y1 y2 :
+  length x1 = length m1 -> length y1 = length m1 ->
+  agree_under (m1 ++ m2) (x1 ++ x2) (y1 ++ y2) = agree_under m1 x1 y1 && agree_under m2 x2 y2.
+Proof.
+  intros Hx Hy. unfold agree_under. rewrite !land_list_app by assumption.
+  apply bytes_eqb_app_split. rewrite !land_list_length by assumption. reflexivity.
+Qed.
+
+Lemma agree_under_refl m x : agree_under m x x = true.
+Proof. apply bytes_eqb_refl. Qed.
+
+Lemma is_v4_split b : length b = 16 -> is_v4 b = true -> b = (v4_in_v6_prefix ++ skipn 12 b)%list.
+Proof.
+  intros Hb Hv. unfold is_v4 in Hv. apply bytes_eqb_eq in Hv. rewrite <- Hv. symmetry. apply firstn_skipn.
+Qed.
+
+Lemma prefix_length : length v4_in_v6_prefix = 12.
+Proof. Local Transparent v4_in_v6_prefix. reflexivity. Local Opaque v4_in_v6_prefix. Qed.
+
+Lemma spec_covers_go_shape a m p :
+  wf_entry (ECidr a m) -> wf_ip p -> spec_covers (ECidr a m) p = covers_go_shape (ECidr a m) p.
+Proof.
+  intros Hw Hp. unfold spec_covers, covers_go_shape, canon16, mask16, mask4.
+  destruct Hp as [Hp|[Hp|Hp]]; rewrite Hp; cbn [Nat.eqb]; [reflexivity| |].
+  - (* IPv4 peer *)
+    destruct Hw as [[Ha Hm]|[Ha Hm]]; rewrite Ha, ?Hm; cbn [Nat.eqb].
+    + rewrite !is_v4_prefix, !skipn_12_prefix. cbn [Bool.eqb andb].
+      rewrite agree_under_app, agree_under_refl; [reflexivity| |]; rewrite prefix_length; reflexivity.
+    + rewrite is_v4_prefix, skipn_12_prefix. destruct (is_v4 a) eqn:Ev; cbn [Bool.eqb negb andb]; [|reflexivity].
+      rewrite (is_v4_split a Ha Ev) at 1. rewrite <- (firstn_skipn 12 m) at 1.
+      rewrite agree_under_app, agree_under_refl; [reflexivity| |]; rewrite firstn_length, Hm, prefix_length; reflexivity.
+  - (* 16-byte peer *)
+    destruct Hw as [[Ha Hm]|[Ha Hm]]; rewrite Ha, ?Hm; cbn [Nat.eqb].
+    + rewrite is_v4_prefix, skipn_12_prefix. destruct (is_v4 p) eqn:Ev; cbn [Bool.eqb andb]; [|reflexivity].
+      rewrite (is_v4_split p Hp Ev) at 1.
+      rewrite agree_under_app, agree_under_refl; [reflexivity| |]; rewrite prefix_length; reflexivity.
+    + destruct (is_v4 a) eqn:Eva; destruct (is_v4 p) eqn:Evp; cbn [Bool.eqb negb andb]; try reflexivity.
+      rewrite (is_v4_split a Ha Eva) at 1. rewrite (is_v4_split p Hp Evp) at 1. rewrite <- (firstn_skipn 12 m) at 1.
+      rewrite agree_under_app, agree_under_refl; [reflexivity| |]; rewrite firstn_length, Hm, prefix_length; reflexivity.
+Qed.
+
+Lemma cidr_entry_membership a m p :
+  wf_entry (ECidr a m) -> wf_ip p ->
+  net_contains a m p = spec_covers (ECidr a m) p.
+Proof. intros Hw Hp. rewrite spec_covers_go_shape by assumption. apply cidr_entry_go_shape; assumption. Qed.
 
 Lemma entry_membership e p :
   wf_entry e -> wf_ip p ->
